@@ -585,8 +585,8 @@ class Runner {
     for (auto& w : worlds) {
       bool r = false;
       auto doit = [&](auto&& x) {
-        int kk = w->policy >= 0 ? (w->policy == SK_LINKED || w->policy == SK_JSTR_LINKED ? 1 : w->policy == SK_CHARPTR ? 2 : w->policy == SK_JSTR_COPIED ? 3 : 0) : keykind;
-        if (st_.key.find('\0') != std::string::npos && (kk == 1 || kk == 2)) kk = 0;
+        int kk = w->policy >= 0 ? (w->policy == SK_LINKED || w->policy == SK_JSTR_LINKED ? 1 : w->policy == SK_CHARPTR ? 2 : w->policy == SK_JSTR_COPIED ? 3 : w->policy >= 7 ? w->policy : 0) : keykind;
+        if (st_.key.find('\0') != std::string::npos && (kk == 1 || kk == 2 || kk >= 7)) kk = 0;
         switch (kk) {
           case 0: {
             std::string tmp = st_.key;
@@ -601,6 +601,21 @@ class Runner {
             for (auto& ch : tmp) ch = '#';
             break;
           }
+#if ARDUINOJSON_ENABLE_ARDUINO_STRING
+          case 7: {
+            ::String tmp(st_.key.c_str());
+            r = lib_set(x[tmp], sc, *w);
+            break;
+          }
+#endif
+#if ARDUINOJSON_ENABLE_PROGMEM
+          case 8: {
+            std::string tmp = st_.key;
+            r = lib_set(x[reinterpret_cast<const __FlashStringHelper*>(tmp.c_str() + 42)], sc, *w);
+            for (auto& ch : tmp) ch = '#';
+            break;
+          }
+#endif
           default: {
             std::string tmp = st_.key;
             r = lib_set(x[JsonString(tmp.data(), tmp.size(), JsonString::Copied)], sc, *w);
